@@ -528,8 +528,7 @@ def run(ctx):
     # the fractions used for partial close / partial liquidation cannot exceed 1 (else the swap exceeds the position)
     from . import c20 as _c20
     from ..core import Ctx as _Ctx
-    sub = _Ctx("C20", ctx.world, ctx.tier)
-    sub.ix = ctx.ix
+    sub = _Ctx("C20", ctx.world, ctx.tier)   # its own engine instance: C20's rules rely on pure-helper expansion, C02's sign tables do not use it
     try:
         _c20.run(sub)
     except Exception as e:
